@@ -1,18 +1,20 @@
 // ===== R9 lock stubs with lock invariants (U-applyops): acquire yields a value satisfying the lock's invariant
 // (lock-invariant rule: the invariant is established when the value is created and must be re-established by every
-// holder before release — the release obligations woven into the functions of this unit); nothing else is known. =====
-pub trait LockInv { spec fn lock_inv(&self) -> bool; }
+// holder before release — the release obligations woven into the functions of this unit); nothing else is known.
+// `lock_inv` is uninterpreted; the unit states what it means for the types it knows (definitional axioms); a lock
+// protecting any other type has an unknown invariant. =====
+pub uninterp spec fn lock_inv<T>(t: T) -> bool;
 #[verifier::external_body]
 #[verifier::reject_recursive_types(T)]
 pub struct Mutex<T> { _p: std::marker::PhantomData<T> }
 #[verifier::external_body]
 #[verifier::reject_recursive_types(T)]
 pub struct RwLock<T> { _p: std::marker::PhantomData<T> }
-impl<T: LockInv> Mutex<T> {
+impl<T> Mutex<T> {
     #[verifier::external_body]
-    pub fn lock(&self) -> (g: &mut T) ensures g.lock_inv() { unimplemented!() }
+    pub fn lock(&self) -> (g: &mut T) ensures lock_inv(*g) { unimplemented!() }
 }
-impl<T: LockInv> RwLock<T> {
+impl<T> RwLock<T> {
     #[verifier::external_body]
-    pub fn write(&self) -> (g: &mut T) ensures g.lock_inv() { unimplemented!() }
+    pub fn write(&self) -> (g: &mut T) ensures lock_inv(*g) { unimplemented!() }
 }
